@@ -71,7 +71,9 @@ def run_tests(pid, tier, only=None):
             if b.returncode == 0 and os.path.exists(binp):
                 shutil.copy(binp, os.path.join(d, 'lace-under-test'))
                 env['VERIF_LACE_BIN'] = os.path.join(d, 'lace-under-test')
-        cmd = ['cargo', 'test', '--offline', '--no-fail-fast', '--lib', '--bins', '--release', 'verif_native', '--', '--test-threads', '8']
+        # only the tests registered for this property (a session test that finds a violation ends its process, which would
+        # take unrelated tests of the same binary with it)
+        cmd = ['cargo', 'test', '--offline', '--no-fail-fast', '--lib', '--bins', '--release', '--'] + sorted(set(t['name'] for t in regs)) + ['--test-threads', '8']
         try:
             p = subprocess.run(cmd, cwd=d, env=env, capture_output=True, text=True, stdin=subprocess.DEVNULL, timeout=3000 if tier == 'thorough' else 1200)
             text = p.stdout + '\n=====STDERR=====\n' + p.stderr
